@@ -327,6 +327,9 @@ func (s *Sim) step(a Action) {
 		s.mstep("krep", nil, func() { s.doKRep(a.KRep) })
 	case "armburst":
 		s.armed = a.KRep
+		if a.KBuf != nil {
+			s.armedK = a.KBuf
+		}
 	case "armstop":
 		s.armedStop = a.N
 		if s.armedStop < 1 {
